@@ -543,6 +543,7 @@ pub fn base_spec(property: &str, plan: &str, seed: u64, mut recorder: RecorderSp
         archive_version: None,
         knobs: BTreeMap::new(),
         log_level: 0,
+        debug_dump: false,
     }
 }
 
